@@ -13,6 +13,9 @@
 (*   SizesAgree   the arithmetic DomSize used by the trace validator = |Dom| by enumeration          *)
 EXTENDS AlgoDom, TLC, Json
 
+\* the exported sequences may be longer than the bound the theorems are checked on (quick tier)
+CONSTANT ExportLen
+
 VARIABLE node
 Root == <<"root">>
 
@@ -42,7 +45,7 @@ Inv ==
 Init == node = Root
 Next ==
     \/ /\ node = Root
-       /\ node' \in {<<"seq", s>> : s \in AllA} \cup {<<"op", op>> : op \in AllOps}
+       /\ node' \in {<<"seq", s>> : s \in UNION {SeqsA(n) : n \in 0..ExportLen}} \cup {<<"op", op>> : op \in AllOps}
     \/ /\ node[1] = "op"
        /\ node' \in {<<"chk", node[2], c>> : c \in Cs(node[2])}
 Spec == Init /\ [][Next]_node
